@@ -78,6 +78,25 @@ Proof.
 Qed.
 Print Assumptions C13_pipeline_fin.
 
+(* ---- the families, LIFTED by the relational invariance of C11 (Inst/C13Lift.v): for every text of a family and EVERY text
+   whose token stream is related to it token by token (keyword tokens re-cased or their inner white space re-spelled,
+   white-space tokens carrying any white-space value, all other tokens equal) the clause nodes of the two parse trees
+   correspond one to one with the same structure: the finite families stand for unboundedly many spellings *)
+From SqlModel.Inst Require C13Lift C11WsVal.
+Theorem C13_family_respelled : forall {A} (obs : node -> A) (eq : A -> A -> bool) (case : text * A),
+  C13Fin.check obs eq case = true ->
+  forall t l0 l, cur_lex (fst case) = Ok l0 -> cur_lex t = Ok l -> Forall2 C11WsVal.tok_wsrel l0 l ->
+  exists n0 n, C13Fin.parse1 (fst case) = Some n0 /\ C13Fin.parse1 t = Some n /\ eq (obs n0) (snd case) = true
+               /\ C11WsVal.wsrel n0 n /\ forall c, Forall2 C11WsVal.wsrel (C13Fin.nodes_of c n0) (C13Fin.nodes_of c n).
+Proof. exact @C13Lift.C13_family_respelled. Qed.
+Print Assumptions C13_family_respelled.
+Definition C13_where_respelled := C13Lift.C13_where_respelled.
+Definition C13_typed_respelled := C13Lift.C13_typed_respelled.
+Definition C13_function_respelled := C13Lift.C13_function_respelled.
+Definition C13_idlist_respelled := C13Lift.C13_idlist_respelled.
+Definition C13_comparison_respelled := C13Lift.C13_comparison_respelled.
+Print Assumptions C13Lift.C13_where_respelled.
+
 (* ---- refuted readings (the specification says what the code does) ------------------------------------ *)
 (* a second WHERE after a set operator that is not in Where.M_CLOSE gets no Where node of its own *)
 From Coq Require Import String.
